@@ -50,6 +50,30 @@ func ParseRules(contentType string, reader io.Reader, envUsageEnabled bool) (*Ru
 	}
 }
 
+// checkKeys rejects mappings with non-string keys: mapstructure panics on them
+// when decoding into a struct.
+func checkKeys(value any) error {
+	switch typed := value.(type) {
+	case map[string]any:
+		for _, v := range typed {
+			if err := checkKeys(v); err != nil {
+				return err
+			}
+		}
+	case []any:
+		for _, v := range typed {
+			if err := checkKeys(v); err != nil {
+				return err
+			}
+		}
+	case map[any]any:
+		return errorchain.NewWithMessage(heimdall.ErrConfiguration,
+			"rule set contains a mapping with a non-string key")
+	}
+
+	return nil
+}
+
 func parseYAML(reader io.Reader, envUsageEnabled bool) (*RuleSet, error) {
 	var (
 		rawConfig map[string]any
@@ -78,6 +102,10 @@ func parseYAML(reader io.Reader, envUsageEnabled bool) (*RuleSet, error) {
 			return nil, ErrEmptyRuleSet
 		}
 
+		return nil, err
+	}
+
+	if err := checkKeys(rawConfig); err != nil {
 		return nil, err
 	}
 
